@@ -28,7 +28,6 @@ Notation M_irun := (M_irun L leq as_pos).
 Notation M_lookup := (M_lookup L leq as_pos).
 Notation M_iobserve := (M_iobserve L leq as_pos).
 Notation S_iobserve := (S_iobserve L).
-Notation dom_append := (dom_append L leq as_pos).
 Notation dom_extend := (dom_extend L leq as_pos).
 Notation dom_iop := (dom_iop L leq as_pos).
 Notation dom_irun := (dom_irun L leq as_pos).
@@ -233,55 +232,75 @@ Proof.
   destruct (g_map s); auto. destruct (as_pos v); auto. destruct (0 <=? z); auto using refresh_cnt.
 Qed.
 
-(* membership as the implementation computes it is membership in the labels (inside the guard) *)
-Lemma contains_correct : forall s v, igo_wf s -> dom_append s v = true ->
-  M_contains s v = mem v (g_lm s).
+(* membership as the implementation computes it: exact with a map and for int-like labels on a
+   loc_is_iloc index; for other labels on a loc_is_iloc index it answers False (the fast path) *)
+Lemma contains_correct : forall s v, igo_wf s ->
+  (g_map s <> None \/ as_pos v <> None) -> M_contains s v = mem v (g_lm s).
 Proof.
   intros s v Hwf Hd. pose proof (wf_len_refresh s Hwf) as Hlen.
   destruct Hwf as (Hc & Hn & Hm & Hr).
-  unfold GrowOnly.M_contains, GrowOnly.dom_append in *. destruct (g_map s) as [keys|].
+  unfold GrowOnly.M_contains in *. destruct (g_map s) as [keys|].
   - now subst keys.
   - destruct (as_pos v) as [z|] eqn:Hv.
     + rewrite Hlen. unfold zrange in Hm. rewrite (mem_auto _ _ _ _ _ Hm Hv). lia.
-    + symmetry. now apply negb_true_iff.
+    + destruct Hd as [Hd|Hd]; congruence.
 Qed.
 
-(* one append inside the guard: same outcome and same labels as the specification, and still well formed *)
+Lemma contains_auto_nonint : forall s v, g_map s = None -> as_pos v = None -> M_contains s v = false.
+Proof. intros s v Hm Hv. unfold GrowOnly.M_contains. now rewrite Hm, Hv. Qed.
+
+(* one append: same outcome and same labels as the specification, and still well formed -- for EVERY label *)
 Definition step_refines (r : igo L * outcome) (r' : list L * outcome) : Prop :=
   igo_wf (fst r) /\ g_lm (fst r) = fst r' /\ is_ok (snd r) = is_ok (snd r').
 
 Lemma wf_cnt_nonneg : forall s, igo_wf s -> 0 <= g_cnt s.
 Proof. intros s (Hc & _). lia. Qed.
 
-Lemma M_append_refines : forall s v, igo_wf s -> dom_append s v = true ->
+Lemma M_append_refines : forall s v, igo_wf s ->
   step_refines (M_append s v) (S_append (g_lm s) v).
 Proof.
-  intros s v Hwf Hd. unfold GrowOnly.M_append, GrowOnly.S_append.
-  rewrite (contains_correct s v Hwf Hd).
+  intros s v Hwf. unfold GrowOnly.M_append, GrowOnly.S_append.
   pose proof (contains_state_wf s v Hwf) as Hwf1.
   pose proof (contains_state_lm s v) as Hlm1.
   pose proof (contains_state_cnt s v) as Hcnt1.
-  destruct (mem v (g_lm s)) eqn:Hm.
-  - split; [exact Hwf1 | split; [exact Hlm1 | reflexivity]].
-  - set (s1 := GrowOnly.M_contains_state L as_pos s v) in *.
-    pose proof (wf_cnt_nonneg _ Hwf1) as Hnn.
-    destruct Hwf1 as (Hc & Hn & Hmap & Hr).
-    assert (Hnd : nodupb (g_lm s1 ++ [v]) = true) by (rewrite nodupb_snoc, Hn, Hlm1, Hm; reflexivity).
-    assert (Hlen : g_cnt s1 + 1 = Z.of_nat (length (g_lm s1 ++ [v]))) by (rewrite app_length; cbn; lia).
-    destruct (g_map s1) as [keys|] eqn:Emap.
-    + subst keys. unfold step_refines, igo_wf; cbn. rewrite Hlm1 in *. intuition (auto; discriminate).
-    + destruct (as_pos v) as [z|] eqn:Hv.
-      * destruct (z =? g_cnt s1) eqn:Hz.
-        -- unfold step_refines, igo_wf; cbn. rewrite <- Hlm1. repeat split; auto; try discriminate.
-           rewrite map_app, Hmap, (zrange_snoc _ Hnn), map_app. cbn. rewrite Hv. repeat f_equal. lia.
+  pose proof (contains_state_map s v) as Hmap1.
+  assert (Hkey : M_contains s v = mem v (g_lm s) \/
+                 (M_contains s v = false /\ g_map s = None /\ as_pos v = None)).
+  { destruct (g_map s) as [keys|] eqn:Em.
+    - left. apply contains_correct; auto. left. congruence.
+    - destruct (as_pos v) as [z|] eqn:Ev.
+      + left. apply contains_correct; auto. right. congruence.
+      + right. split; [now apply contains_auto_nonint|]. auto. }
+  set (s1 := GrowOnly.M_contains_state L as_pos s v) in *.
+  pose proof (wf_cnt_nonneg _ Hwf1) as Hnn. assert (Hwf1' := Hwf1).
+  destruct Hwf1 as (Hc & Hn & Hmap & Hr).
+  assert (Hlen : g_cnt s1 + 1 = Z.of_nat (length (g_lm s1 ++ [v]))) by (rewrite app_length; cbn; lia).
+  destruct Hkey as [Hkey|(Hkey & Em & Ev)].
+  - rewrite Hkey. destruct (mem v (g_lm s)) eqn:Hm.
+    + split; [exact Hwf1' | split; [exact Hlm1 | reflexivity]].
+    + assert (Hnd : nodupb (g_lm s1 ++ [v]) = true) by (rewrite nodupb_snoc, Hn, Hlm1, Hm; reflexivity).
+      destruct (g_map s1) as [keys|] eqn:Emap.
+      * subst keys. unfold step_refines, igo_wf; cbn. rewrite Hlm1 in *. intuition (auto; discriminate).
+      * destruct (as_pos v) as [z|] eqn:Hv.
+        -- destruct (z =? g_cnt s1) eqn:Hz.
+           ++ unfold step_refines, igo_wf; cbn. rewrite <- Hlm1. repeat split; auto; try discriminate.
+              rewrite map_app, Hmap, (zrange_snoc _ Hnn), map_app. cbn. rewrite Hv. repeat f_equal. lia.
+           ++ rewrite Hnd. unfold step_refines, igo_wf; cbn. rewrite <- Hlm1. repeat split; auto; discriminate.
         -- rewrite Hnd. unfold step_refines, igo_wf; cbn. rewrite <- Hlm1. repeat split; auto; discriminate.
-      * rewrite Hnd. unfold step_refines, igo_wf; cbn. rewrite <- Hlm1. repeat split; auto; discriminate.
+  - (* loc_is_iloc index, label that is not an int: __contains__ says False, the AutoMap decides *)
+    rewrite Hkey. rewrite Hmap1, Em in *. rewrite Ev.
+    rewrite nodupb_snoc, Hn, Hlm1. cbn [andb].
+    destruct (mem v (g_lm s)) eqn:Hm; cbn [negb].
+    + split; [exact Hwf1' | split; [exact Hlm1 | reflexivity]].
+    + unfold step_refines, igo_wf; cbn. rewrite <- Hlm1.
+      assert (Hnd : nodupb (g_lm s1 ++ [v]) = true) by (rewrite nodupb_snoc, Hn, Hlm1, Hm; reflexivity).
+      repeat split; auto; discriminate.
 Qed.
 
-Lemma M_append_ok_iff : forall s v, igo_wf s -> dom_append s v = true ->
+Lemma M_append_ok_iff : forall s v, igo_wf s ->
   is_ok (snd (M_append s v)) = negb (mem v (g_lm s)).
 Proof.
-  intros s v Hwf Hd. destruct (M_append_refines s v Hwf Hd) as (_ & _ & H). rewrite H.
+  intros s v Hwf. destruct (M_append_refines s v Hwf) as (_ & _ & H). rewrite H.
   unfold GrowOnly.S_append. now destruct (mem v (g_lm s)).
 Qed.
 
@@ -293,9 +312,8 @@ Lemma M_extend_all : forall vs s, igo_wf s -> dom_extend s vs false = true ->
 Proof.
   induction vs as [|v r IH]; intros s Hwf Hd; cbn in *.
   - rewrite app_nil_r. auto.
-  - apply andb_true_iff in Hd as [Hda Hd].
-    pose proof (M_append_refines s v Hwf Hda) as (Hw1 & Hl1 & Ho1).
-    pose proof (M_append_ok_iff s v Hwf Hda) as Hok.
+  - pose proof (M_append_refines s v Hwf) as (Hw1 & Hl1 & Ho1).
+    pose proof (M_append_ok_iff s v Hwf) as Hok.
     destruct (GrowOnly.M_append L leq as_pos s v) as [s1 o] eqn:E. cbn in *.
     destruct o as [u|e]; [|discriminate].
     cbn in Hok. symmetry in Hok. rewrite Hok. cbn.
@@ -309,9 +327,9 @@ Lemma M_extend_refines : forall vs s, igo_wf s -> dom_extend s vs true = true ->
 Proof.
   intros [|v r] s Hwf Hd; unfold GrowOnly.S_extend.
   - cbn. unfold step_refines; cbn. rewrite app_nil_r. auto.
-  - cbn in Hd. apply andb_true_iff in Hd as [Hda Hd].
-    pose proof (M_append_refines s v Hwf Hda) as (Hw1 & Hl1 & Ho1).
-    pose proof (M_append_ok_iff s v Hwf Hda) as Hok.
+  - cbn in Hd.
+    pose proof (M_append_refines s v Hwf) as (Hw1 & Hl1 & Ho1).
+    pose proof (M_append_ok_iff s v Hwf) as Hok.
     cbn [GrowOnly.M_extend GrowOnly.fresh_all].
     destruct (GrowOnly.M_append L leq as_pos s v) as [s1 o] eqn:E. cbn in *.
     unfold GrowOnly.S_append in Hl1.
@@ -435,7 +453,8 @@ Proof.
   destruct (g_map (M_contains_state s v)); [exists [v]; cbn; now rewrite Hl|].
   destruct (match as_pos v with Some z => z =? g_cnt (M_contains_state s v) | None => false end);
     [exists [v]; cbn; now rewrite Hl|].
-  destruct (nodupb (g_lm (M_contains_state s v) ++ [v])); exists [v]; cbn; now rewrite Hl.
+  destruct (nodupb (g_lm (M_contains_state s v) ++ [v])); [exists [v]; cbn; now rewrite Hl|].
+  exists []. cbn. now rewrite app_nil_r, Hl.
 Qed.
 
 Lemma M_extend_prefix : forall vs s, exists t, g_lm (fst (M_extend s vs)) = g_lm s ++ t.
@@ -460,14 +479,20 @@ Proof.
     exists (t1 ++ t2). now rewrite H2, H1, app_assoc.
 Qed.
 
-(* OUTSIDE any guard, on an index that has a map (every index built from explicit labels):
-   a rejected append leaves the model state exactly as it was *)
-Theorem M_append_atomic_with_map : forall s v e, g_map s <> None ->
-  snd (M_append s v) = Err e -> fst (M_append s v) = s.
+(* OUTSIDE any guard: a rejected append changes nothing but the array cache (labels list, map, count
+   are exactly as before) -- with a map AND on a loc_is_iloc index (after fix feb832d) *)
+Theorem M_append_atomic : forall s v e,
+  snd (M_append s v) = Err e ->
+  let s' := fst (M_append s v) in
+  g_lm s' = g_lm s /\ g_map s' = g_map s /\ g_cnt s' = g_cnt s.
 Proof.
-  intros s v e Hmap. unfold GrowOnly.M_append, GrowOnly.M_contains_state, GrowOnly.M_contains.
-  destruct (g_map s) as [keys|] eqn:E; [|congruence].
-  destruct (mem v keys); cbn; [reflexivity|]. rewrite E. cbn. discriminate.
+  intros s v e. unfold GrowOnly.M_append.
+  pose proof (contains_state_lm s v) as Hl. pose proof (contains_state_map s v) as Hm.
+  pose proof (contains_state_cnt s v) as Hc.
+  destruct (M_contains s v); cbn; [intros _; repeat split; congruence|].
+  destruct (g_map (M_contains_state s v)) eqn:Eg; cbn; [discriminate|].
+  destruct (match as_pos v with Some z => z =? g_cnt (M_contains_state s v) | None => false end); cbn; [discriminate|].
+  destruct (nodupb (g_lm (M_contains_state s v) ++ [v])); cbn; [discriminate|]. intros _; repeat split; congruence.
 Qed.
 
 End IndexProofs.
